@@ -22,6 +22,7 @@
 #include <assert.h>
 #include <ctype.h>
 #include <errno.h>
+#include <limits.h>
 #include <stdbool.h>
 #include <stdio.h>
 #include <stdlib.h>
@@ -670,6 +671,12 @@ int _vnadata_load_npd(vnadata_internal_t *vdip, FILE *fp, const char *filename)
 	_vnadata_error(vdip, VNAERR_SYNTAX, "%s (line %d) error: "
 		"required keyword #:ports missing",
 		nss.nss_filename, nss.nss_line);
+	goto out;
+    }
+    if (ports != 0 && ports > INT_MAX / 2 / ports) {
+	_vnadata_error(vdip, VNAERR_SYNTAX, "%s (line %d) error: "
+		"#:ports %d is too large",
+		nss.nss_filename, nss.nss_line, ports);
 	goto out;
     }
     if (frequencies < 0) {
